@@ -15,7 +15,9 @@ CONSTANTS
   MaxChanges = 2
   MaxUpdates = 1
   MaxCalls = 0
+  NPages = 1
   ModernUnsub = FALSE
+  ForeignUnsub = TRUE
   Stepwise = FALSE
   Gates = FALSE
   GateNames = {"inv", "usr", "put"}
